@@ -16,12 +16,18 @@ import (
 	"time"
 
 	"verifharness/drv"
+
+	"github.com/yandex/pandora/core/coreutil"
 )
 
 func runStress(m map[string]string) string {
 	t0 := time.Now().Add(-time.Duration(tenHours))
 	tree, _ := parseTree(m["tree"])
 	s := buildReal(tree, false)
+	var cbCalls atomic.Int64
+	if m["cb"] == "1" {
+		s = coreutil.NewCallbackOnFinishSchedule(s, func() { cbCalls.Add(1) })
+	}
 	if m["start"] != "0" {
 		s.Start(t0)
 	}
@@ -65,7 +71,11 @@ func runStress(m map[string]string) string {
 	for _, r := range res {
 		parts = append(parts, strings.Join(r, ","))
 	}
-	return strings.Join(parts, "|")
+	obs := strings.Join(parts, "|")
+	if m["cb"] == "1" {
+		obs += fmt.Sprintf("#CB:%d", cbCalls.Load())
+	}
+	return obs
 }
 
 func stressTree(r *rand.Rand, depth int, unstarted bool) *node {
@@ -99,7 +109,7 @@ func stressTree(r *rand.Rand, depth int, unstarted bool) *node {
 func genStress(r *rand.Rand, tier string) []string {
 	n := 600
 	if tier == "thorough" {
-		n = 40000
+		n = 70000
 	}
 	var out []string
 	for i := 0; i < n; i++ {
@@ -136,7 +146,11 @@ func genStress(r *rand.Rand, tier string) []string {
 		if unstarted {
 			st = 0
 		}
-		out = append(out, "mode=stress now="+strconv.FormatInt(tenHours, 10)+fmt.Sprintf(" start=%d tree=%s prog=%s", st, t.String(), strings.Join(progs, "|")))
+		line := "mode=stress now=" + strconv.FormatInt(tenHours, 10) + fmt.Sprintf(" start=%d tree=%s prog=%s", st, t.String(), strings.Join(progs, "|"))
+		if r.Intn(3) == 0 {
+			line += " cb=1"
+		}
+		out = append(out, line)
 	}
 	return out
 }
